@@ -255,6 +255,22 @@ fn three_custom(w: &mut ZW, c: Color, a: Animal, n: CustomU64) {
     rec(w, format!("three_custom({c:?},{a:?},{})", n.0));
 }
 
+// regexes whose leading literal run ends in a quantified character
+#[given(regex = r"^colou?r is (\w+)$")]
+fn opt_char(w: &mut ZW, c: String) {
+    rec(w, format!("opt_char({c:?})"));
+}
+
+#[when(regex = r"^an? (\w+) is eaten$")]
+fn opt_char2(w: &mut ZW, c: String) {
+    rec(w, format!("opt_char2({c:?})"));
+}
+
+#[then(regex = r"^ab*c is spel{1,2}ed$")]
+fn star_char(w: &mut ZW) {
+    rec(w, "star_char()".into());
+}
+
 #[when(regex = r"^colors (red|green|blue) (red|green|blue)$")]
 fn colors(w: &mut ZW, v: &[Color]) {
     rec(w, format!("colors({v:?})"));
@@ -358,6 +374,9 @@ pub fn entries() -> Vec<Entry> {
             let an = if g(c, 2) == "cat" { "Cat" } else { "Dog" };
             g(c, 3).parse::<u64>().ok().map(|n| format!("three_custom({col},{an},{n})"))
         }, templates: &["a {c} cat and {n} more", "a {c} dog and {n} more", "a cat {c} and {n} more"] },
+        Entry { func: "opt_char", kw: Given, re: r"^colou?r is (\w+)$", expect: |c, _| Some(format!("opt_char({:?})", g(c, 1))), templates: &["color is {w}", "colour is {w}", "colo is {w}"] },
+        Entry { func: "opt_char2", kw: When, re: r"^an? (\w+) is eaten$", expect: |c, _| Some(format!("opt_char2({:?})", g(c, 1))), templates: &["a {w} is eaten", "an {w} is eaten", "ann {w} is eaten"] },
+        Entry { func: "star_char", kw: Then, re: r"^ab*c is spel{1,2}ed$", expect: |_, _| Some("star_char()".into()), templates: &["ac is speled", "abc is spelled", "abbbc is spelled", "abc is spellled"] },
         Entry { func: "colors", kw: When, re: r"^colors (red|green|blue) (red|green|blue)$", expect: |c, _| {
             let m = |s: &str| match s { "red" => "Red", "green" => "Green", _ => "Blue" };
             Some(format!("colors([{}, {}])", m(g(c, 1)), m(g(c, 2))))
